@@ -46,7 +46,8 @@ def cases(tier, seed):
         elif cls == 'many':
             nd = rng.randint(16, 120)
         else:
-            nd = rng.choice([400, 399, 200])
+            # up to what a transport message holds: 445 codes = 1782 bytes on J1939-21; J1939-22 has no such limit in practice
+            nd = rng.choice([400, 399, 200, 445, 444]) if layer == 'j1939-21' else rng.choice([400, 200, 445, 900])
         out.append(dict(kind='dm1', layer=layer, ndtc=nd, vary=rng.random() < 0.5, lamps=[list(combos[(i * 5 + k) % len(combos)]) for k in range(5)],
                         seed=rng.randrange(1 << 30)))
     for i in range(4 if tier == 'quick' else 32):
